@@ -599,3 +599,11 @@ fn c02_log_textfilter_linefilter() {
     textfilter_case(1, "ab", true);
 }
 }
+
+// ------------------------------------------------------------------------------------------------
+// C19 (write failures at this level) is NOT decided: instances in which the primary writer or an
+// additional writer returns Err gave no result in 400 s / 7 GB - after reporting, log() drops the
+// io::Error, whose drop glue does not terminate (DESIGN.md 2). Worse, a recording writer that *can*
+// return Err makes the error path live in every other harness of this file (it is a candidate of
+// every `dyn LogWriter::write` call): the fault-injecting variants were removed again after they
+// pushed all brace-target harnesses back to time-outs.
